@@ -89,7 +89,7 @@ class EachScheduling:
             self.node2pending[node] = []
             if len(self.node2collection) >= self.numnodes:
                 self.collection_is_completed = True
-        elif self._removed2pending:
+        else:
             for deadnode in self._removed2pending:
                 if deadnode.gateway.spec == node.gateway.spec:
                     dead_collection = self.node2collection[deadnode]
@@ -101,10 +101,16 @@ class EachScheduling:
                             node.gateway.id,
                         )
                         self.log(msg)
-                        return
+                        break
                     pending = self._removed2pending.pop(deadnode)
                     self.node2pending[node] = pending
+                    # needed to name the crashed test should this node die too
+                    self.node2collection[node] = dead_collection
                     break
+            if not self.node2pending[node]:
+                # Nothing to take over: the node is not needed.
+                node.shutdown()
+                self._started.append(node)
 
     def mark_test_complete(
         self, node: WorkerController, item_index: int, duration: float = 0
@@ -144,6 +150,9 @@ class EachScheduling:
             if node in self._started:
                 continue
             if not pending:
+                if node not in self.node2collection:
+                    # A replacement node which has not reported its collection yet.
+                    continue
                 pending[:] = range(len(self.node2collection[node]))
                 node.send_runtest_all()
                 node.shutdown()
